@@ -547,20 +547,32 @@ def var_defs(fn, local):
 # ------------------------------------------------------------------ const-generic sweep
 
 
-def _eval_param_expr(e, env):
-    """Evaluate an expression that depends only on const-generic params/constants, else None."""
+def _eval_param_expr(e, env, fn=None):
+    """Evaluate an expression that depends only on const-generic params / constants / leaves whose
+    canonical name is bound in env (e.g. 'len(arg1)'), else None."""
     if e[0] == "const":
         return e[1]
     if e[0] == "param":
         return env.get(e[1])
+    if fn is not None and e[0] in ("call", "un", "field", "arg", "deref", "var"):
+        k = pred.canon(e, fn)
+        if k in env:
+            return env[k]
+        if e[0] == "call" and e[1].startswith("core::mem::size_of::<"):
+            l, c = pred.lin(e, fn)
+            if not l:
+                return c
     if e[0] == "cast":
-        return _eval_param_expr(e[2], env)
+        return _eval_param_expr(e[2], env, fn)
     if e[0] == "un" and e[1] == "Not":
-        v = _eval_param_expr(e[2], env)
+        v = _eval_param_expr(e[2], env, fn)
         return None if v is None else int(not v)
+    if e[0] == "call" and fn is not None and (e[1].endswith("::is_empty")):
+        v = env.get("len(%s)" % pred.canon(e[2][0], fn))
+        return None if v is None else int(v == 0)
     if e[0] == "bin":
-        a = _eval_param_expr(e[2], env)
-        b = _eval_param_expr(e[3], env)
+        a = _eval_param_expr(e[2], env, fn)
+        b = _eval_param_expr(e[3], env, fn)
         if a is None or b is None:
             return None
         op = e[1]
@@ -573,9 +585,11 @@ def _eval_param_expr(e, env):
     return None
 
 
-def reachable_under(fn, env):
+def reachable_under(fn, env, prog=None, depth=3, memo=None):
     """Blocks reachable from entry when const-generic parameters take the values in env (branches
-    whose condition depends only on those parameters are decided, all others taken both ways)."""
+    whose condition depends only on those parameters are decided, all others taken both ways).
+    With `prog`, a call to a crate function that cannot return under the induced argument values
+    (it panics on every path) does not continue to its return block."""
     succ = fn.cfg()[0]
     seen = set()
     st = [0]
@@ -586,7 +600,7 @@ def reachable_under(fn, env):
         seen.add(b)
         t = fn.term(b)
         if t[0] == "sw":
-            v = _eval_param_expr(fn.expr(t[1]), env)
+            v = _eval_param_expr(fn.expr(t[1]), env, fn)
             if v is not None:
                 tgt = t[3]
                 for val, bb in t[2]:
@@ -595,18 +609,68 @@ def reachable_under(fn, env):
                 st.append(tgt)
                 continue
         if t[0] == "assert":
-            v = _eval_param_expr(fn.expr(t[1]), env)
+            v = _eval_param_expr(fn.expr(t[1]), env, fn)
             if v is not None and bool(v) != bool(t[2]):
                 continue
+        if t[0] == "call" and prog is not None and depth > 0:
+            c = mir.Call(fn, b, t)
+            if c.local and c.target is not None:
+                cal = prog.fn_opt(c.name())
+                if cal is not None and not can_return(prog, cal, _callee_env(fn, c, cal, env), depth - 1, memo):
+                    continue
         st.extend(succ[b])
     return seen
 
 
-def accepted_param_values(fn, param, candidates):
-    """Values of const-generic `param` for which fn can return normally."""
+def _callee_env(fn, c, cal, env):
+    from . import pred
+    env2 = {}
+    gens = [g[0] for g in (cal.raw.get("generics") or []) if g[1] == "Const"]
+    gas = [g for g in (c.ga or [])]
+    cg = [g for g in gas if isinstance(g, (int, str))]
+    for name, g in zip(gens, cg[-len(gens):] if gens else []):
+        if isinstance(g, int):
+            env2[name] = g
+        elif isinstance(g, str) and g.lstrip("-").isdigit():
+            env2[name] = int(g)
+        elif g in env:
+            env2[name] = env[g]
+    for i, a in enumerate(c.args):
+        e = fn.expr(a)
+        v = _eval_param_expr(e, env, fn)
+        if v is not None:
+            env2["arg%d" % (i + 1)] = v
+            continue
+        cs = pred.canon(e, fn)
+        if cs == "K()":
+            env2["len(arg%d)" % (i + 1)] = 0
+        elif "len(%s)" % cs in env:
+            env2["len(arg%d)" % (i + 1)] = env["len(%s)" % cs]
+    return env2
+
+
+def can_return(prog, fn, env, depth=3, memo=None):
+    if memo is None:
+        memo = {}
+    k = (fn.path, tuple(sorted(env.items())))
+    if k in memo:
+        return memo[k]
+    memo[k] = True  # recursion: optimistic
+    r = reachable_under(fn, env, prog, depth, memo)
+    memo[k] = any(fn.term(b)[0] == "ret" for b in r)
+    return memo[k]
+
+
+def accepted_param_values(fn, param, candidates, extra=None, prog=None):
+    """Values of const-generic `param` (or of a leaf such as 'len(arg1)') for which fn can return normally
+    (with `prog`: and none of the crate functions it must call rejects the induced arguments)."""
     ok = []
+    memo = {}
     for v in candidates:
-        r = reachable_under(fn, {param: v})
+        env = {param: v}
+        if extra:
+            env.update(extra)
+        r = reachable_under(fn, env, prog, 3, memo)
         if any(fn.term(b)[0] == "ret" for b in r):
             ok.append(v)
     return ok
